@@ -300,6 +300,31 @@ def decision_lines(ctx, lines, expect, lab, clf_classes, y_pred, costs, noise, P
         ctx.count("zero_noise_drawn")
 
 
+def true_cost(cfg, lab, classes_):
+    """The user's cost matrix looked up BY LABEL: entry (a, b) is the cost of predicting classes_[b] for true class
+    classes_[a], read from cfg["cost"] whose rows / columns follow the declared order of `classes` (never via cost_matrix_)."""
+    k = len(classes_)
+    if cfg.get("cost") is None:
+        return 1.0 - np.eye(k)
+    decl = lab.classes(cfg["classes_order"])
+    pos = [decl.index(c) for c in list(classes_)]
+    U = np.array(cfg["cost"], dtype=float)
+    return np.array([[U[pos[a], pos[b]] for b in range(k)] for a in range(k)], dtype=float)
+
+
+def cost_lines(ctx, lines, expect, lab, cfg, owner):
+    """correspondence of `cost_matrix_` with the model's permutation of the declared matrix."""
+    if cfg.get("cost") is None or cfg.get("classes_order") is None:
+        return
+    decl = lab.classes(cfg["classes_order"])
+    k = len(decl)
+    decl_int = lab.to_int(decl, sorted(decl))
+    lines.append(f"costperm {k} {' '.join(map(str, decl_int))} {flat_bits(np.array(cfg['cost'], dtype=float))}")
+    expect.append((mat_bits(owner.cost_matrix_), dict(cfg, what="costperm")))
+    if cfg["classes_order"] != sorted(cfg["classes_order"]):
+        ctx.count("cost_matrix_with_unsorted_declared_classes")
+
+
 def materialize(cfg):
     lab = Labels(cfg["label_kind"], cfg["k"])
     y = lab.y(cfg["y_idx"])
@@ -387,8 +412,10 @@ def case_freq(ctx, lines, expect, cfg):
              f"predict raised {type(ex).__name__}: {ex}", cfg)
         return
     P = P if Pu is None else Pu
-    oracle_predict(ctx, "ClassFrequencyEstimator", y_pred, P, clf.cost_matrix_, clf.classes_, cfg)
-    decision_lines(ctx, lines, expect, lab, clf.classes_, y_pred, costs, noise, P, clf.cost_matrix_, cfg, "freq")
+    Ct = true_cost(cfg, lab, clf.classes_)
+    cost_lines(ctx, lines, expect, lab, cfg, clf)
+    oracle_predict(ctx, "ClassFrequencyEstimator", y_pred, P, Ct, clf.classes_, cfg)
+    decision_lines(ctx, lines, expect, lab, clf.classes_, y_pred, costs, noise, P, Ct, cfg, "freq")
 
 
 def gen_freq(rng):
@@ -505,9 +532,11 @@ def case_pwc(ctx, lines, expect, cfg):
              f"predict raised {type(ex).__name__}: {ex}", cfg)
         return
     P = P if Pu is None else Pu
+    Ct = true_cost(cfg, lab, clf.classes_)
+    cost_lines(ctx, lines, expect, lab, cfg, clf)
     if ok:
-        oracle_predict(ctx, "ParzenWindowClassifier", y_pred, P, clf.cost_matrix_, clf.classes_, cfg)
-    decision_lines(ctx, lines, expect, lab, clf.classes_, y_pred, costs, noise, P, clf.cost_matrix_, cfg, "pwc")
+        oracle_predict(ctx, "ParzenWindowClassifier", y_pred, P, Ct, clf.classes_, cfg)
+    decision_lines(ctx, lines, expect, lab, clf.classes_, y_pred, costs, noise, P, Ct, cfg, "pwc")
 
 
 def gen_common(rng, kmax=4, nmax=6, allow_none_classes=True, two_d=None):
@@ -653,9 +682,11 @@ def case_mmc(ctx, lines, expect, cfg):
              f"predict raised {type(ex).__name__}: {ex}", cfg)
         return
     P = P if Pu is None else Pu
+    Ct = true_cost(cfg, lab, clf.classes_)
+    cost_lines(ctx, lines, expect, lab, cfg, clf)
     if ok:
-        oracle_predict(ctx, "MixtureModelClassifier", y_pred, P, clf.cost_matrix_, clf.classes_, cfg)
-    decision_lines(ctx, lines, expect, lab, clf.classes_, y_pred, costs, noise, P, clf.cost_matrix_, cfg, "mmc")
+        oracle_predict(ctx, "MixtureModelClassifier", y_pred, P, Ct, clf.classes_, cfg)
+    decision_lines(ctx, lines, expect, lab, clf.classes_, y_pred, costs, noise, P, Ct, cfg, "mmc")
 
 
 def gen_mmc(rng, real=False):
@@ -869,7 +900,8 @@ def case_skl(ctx, lines, expect, cfg):
         return
     branch = "unfitted" if not fitted else ("cost" if cost is not None else "estimator")
     ctx.count("skl_predict_branch_" + branch)
-    C = clf.cost_matrix_
+    C = true_cost(cfg, lab, clf.classes_)
+    cost_lines(ctx, lines, expect, lab, cfg, clf)
     if ok and (est_valid or branch != "estimator"):
         pre = "unfitted-estimator-samples-from-label-distribution" if branch == "unfitted" else est_name
         oracle_predict(ctx, "SklearnClassifier", y_pred, P, C, clf.classes_, cfg, pre=pre)
@@ -973,11 +1005,12 @@ def case_swc(ctx, lines, expect, cfg):
     unf = cfg["inner"] != "pwc" and not est_.is_fitted_
     if ok and est_valid:
         # an unfitted wrapped SklearnClassifier samples its labels: same root cause as the wrapper's own finding
-        oracle_predict(ctx, "SklearnClassifier" if unf else "SlidingWindowClassifier", y_pred, P, est_.cost_matrix_, est_.classes_, cfg,
+        oracle_predict(ctx, "SklearnClassifier" if unf else "SlidingWindowClassifier", y_pred, P, true_cost(cfg, lab, est_.classes_), est_.classes_, cfg,
                        pre="unfitted-estimator-samples-from-label-distribution" if unf else None)
     if cap.calls:
         noise = [x[1] for x in rs.log if x[0] == "random"][0]
-        decision_lines(ctx, lines, expect, lab, est_.classes_, y_pred, cap.calls[0][0], noise, P, est_.cost_matrix_, cfg, "swc")
+        decision_lines(ctx, lines, expect, lab, est_.classes_, y_pred, cap.calls[0][0], noise, P, true_cost(cfg, lab, est_.classes_), cfg, "swc")
+    cost_lines(ctx, lines, expect, lab, cfg, est_)
 
 
 def _is_missing(v, missing):
@@ -1099,8 +1132,10 @@ def case_ens(ctx, lines, expect, cfg):
         viol(ctx, "AnnotatorEnsembleClassifier", "predict", "raises", f"predict raised {type(ex).__name__}: {ex}", cfg)
         return
     if ok:
-        oracle_predict(ctx, "AnnotatorEnsembleClassifier", y_pred, P, clf.cost_matrix_, clf.classes_, cfg)
-        decision_lines(ctx, lines, expect, lab, clf.classes_, y_pred, costs, noise, P, clf.cost_matrix_, cfg, "ens")
+        Ct = true_cost(cfg, lab, clf.classes_)
+        cost_lines(ctx, lines, expect, lab, cfg, clf)
+        oracle_predict(ctx, "AnnotatorEnsembleClassifier", y_pred, P, Ct, clf.classes_, cfg)
+        decision_lines(ctx, lines, expect, lab, clf.classes_, y_pred, costs, noise, P, Ct, cfg, "ens")
 
 
 def gen_ens(rng):
@@ -1158,8 +1193,10 @@ def case_alr(ctx, lines, expect, cfg):
         return
     P = P if Pu is None else Pu
     if ok:
-        oracle_predict(ctx, "AnnotatorLogisticRegression", y_pred, P, clf.cost_matrix_, clf.classes_, cfg)
-        decision_lines(ctx, lines, expect, lab, clf.classes_, y_pred, costs, noise, P, clf.cost_matrix_, cfg, "alr")
+        Ct = true_cost(cfg, lab, clf.classes_)
+        cost_lines(ctx, lines, expect, lab, cfg, clf)
+        oracle_predict(ctx, "AnnotatorLogisticRegression", y_pred, P, Ct, clf.classes_, cfg)
+        decision_lines(ctx, lines, expect, lab, clf.classes_, y_pred, costs, noise, P, Ct, cfg, "alr")
 
 
 def gen_alr(rng):
@@ -1207,6 +1244,18 @@ def fixed_cases():
     out.append(dict(kind="ens", k=2, label_kind="spread-nan", y_idx=[[0, 1], [1, None], [0, 0]], classes_order=[0, 1], cost=None,
                     w=None, seed=8, n_members=2, voting="soft", members="pwc", member_classes=True, Xtr=[[0, 0], [1, 1], [2, 2]],
                     Xq=[[0, 0], [1, 1]]))
+    asym3 = [[0, 1, 4], [2, 0, 8], [16, 32, 0]]
+    asym4 = [[0, 1, 2, 3], [4, 0, 5, 6], [7, 8, 0, 9], [10, 11, 12, 0]]
+    for order, cost in (([1, 2, 0], asym3), ([2, 0, 1], asym3), ([1, 2, 3, 0], asym4), ([2, 0, 3, 1], asym4)):
+        k = len(order)
+        for lk in ("spread-nan", "str-none"):
+            out.append(dict(kind="pwc", k=k, label_kind=lk, y_idx=[0, 1, 2, None, k - 1], classes_order=order, cost=cost, w=None, seed=21,
+                            K=[[1, 0.5, 0.25, 1, 0.25], [0.25, 0.25, 1, 1, 0.5], [0, 0, 0, 0, 0]], prior=0.0, metric_mode="precomputed", n_neighbors=None))
+            out.append(dict(kind="skl", estimator="spy", k=k, label_kind=lk, y_idx=list(range(k)) + [None], classes_order=order, cost=cost,
+                            w=None, seed=22, Xtr=[[float(i), 0.0] for i in range(k + 1)], Xq=[[0.0, 0.0], [1.0, 1.0], [2.0, 2.0]],
+                            raise_on_fit=False, nan_at=None, partial=False))
+            out.append(dict(kind="freq", k=k, label_kind=lk, y_idx=[0], classes_order=order, cost=cost,
+                            F=[[1.0] * k, [2.0] + [1.0] * (k - 1), [0.5] * (k - 1) + [2.0]], prior=0, seed=23))
     out.append(dict(kind="alr", k=2, label_kind="int-nan", y_idx=[[0, 1], [None, None], [1, 1]], classes_order=[0, 1], cost=None,
                     w=[[1.0, 1.0], [1.0, 1.0], [1.0, 1.0]], seed=9, n_annot=2, Xtr=[[0, 0], [1, 1], [2, 2]], Xq=[[0, 0], [1, 1]]))
     return out
